@@ -121,6 +121,16 @@ func (in *Interp) fmtValue(a Value, verb byte, depth int) Value {
 	case Int, float64:
 		n, _ := in.nativeScalar(x, t)
 		return fmt.Sprint(n)
+	case SymF:
+		// %v of a float64 is strconv's shortest 'g' formatting; modelled for finite floats given by a bit pattern
+		bits, ok := mkFPBits(x.t)
+		if !ok {
+			unsup("formatting of a computed symbolic float")
+		}
+		if in.decide(mkEq(mkExtract(bits, 62, 52), mkConst(0x7ff, 11))) {
+			unsup("formatting of a symbolic float that is NaN or infinite")
+		}
+		return fmtFloatStr(bits)
 	case nil:
 		return "<nil>"
 	case Pointer:
